@@ -50,7 +50,7 @@ func init() {
 		ID:          "C03",
 		Run:         RunC03,
 		Replay:      func(c *Ctx, entry, input string) { CheckC03(c, entry, input) },
-		Rule:        "cases = (entry point, byte string): exhaustive strings over the 24-symbol alphabet through all 11 entry points (plus one more symbol for lexer/splitter), literal/escape/truncation matrix, number forms, adversarial nesting families (depth<=512, input<=16KiB), late multi-line error ranges, every reserved / pseudo keyword after an erroneous prefix and in front of each kind of lexically malformed token, token mutants / hostile splices / random bytes over all 256 byte values, sentences of grammar G; distinct_nontrivial = enumerated strings (distinct by construction) + distinct (entry,input) pairs of the random part",
+		Rule:        "cases = (entry point, byte string): exhaustive strings over the 24-symbol alphabet through all 11 entry points (plus one more symbol for lexer/splitter), literal/escape/truncation matrix, number forms, adversarial nesting families (depth<=512, input<=16KiB), late multi-line error ranges, every reserved / pseudo keyword after an erroneous prefix and in front of each kind of lexically malformed token, token mutants / hostile splices / random bytes over all 256 byte values, sentences of grammar G; distinct_nontrivial = enumerated strings (distinct by construction) + distinct (entry,input) pairs of the random part; an error display matrix (20 erroneous inputs x token separator x last separator x end of input over blank, tab, LF, bare CR, CR LF, VT, FF, and the short !bad_ corpus files re-spaced) through every entry point",
 		Assumptions: []string{"bounded time is decided on a logical clock: token fetches <= 10*(bytes+16)^2 (hook H1); loops that fetch no token are left to the wall-clock watchdog", "inputs are bounded to 16 KiB and nesting depth 512"},
 		Floors: func(m *Merged) []string {
 			var f []string
@@ -64,7 +64,7 @@ func init() {
 		ID:          "C13",
 		Run:         RunC13,
 		Replay:      func(c *Ctx, entry, input string) { CheckC13(c, input) },
-		Rule:        "cases = byte strings: exhaustive over the 24-symbol alphabet up to length 5 (quick) / 6 (thorough), literal matrix, number forms, keyword casings, comment forms, every byte and every code point between two tokens and as the first thing in the input, backslash runs x quote runs in every literal form, all \\u escapes, rendered sentences of grammar G, corpus files, random hostile bytes; distinct_nontrivial = accepted enumerated strings (distinct by construction) + distinct accepted strings of the other workloads",
+		Rule:        "cases = byte strings: exhaustive over the 24-symbol alphabet up to length 5 (quick) / 6 (thorough), literal matrix, number forms, keyword casings, comment forms, every byte and every code point between two tokens and as the first thing in the input, backslash runs x quote runs in every literal form, all \\u escapes, rendered sentences of grammar G, corpus files, random hostile bytes; distinct_nontrivial = accepted enumerated strings (distinct by construction) + distinct accepted strings of the other workloads; a token length sweep (17 token / comment / literal shapes x every body length 0..300, thorough 0..2100, x 4 fillers x 5 last bytes, the terminator occurring again later, and whitespace runs of every such length)",
 		Assumptions: []string{"whitespace means unicode.IsSpace (the property only says 'whitespace')"},
 		Floors: func(m *Merged) []string {
 			if m.Counters["accepted"] == 0 || m.Counters["comments"] == 0 {
